@@ -293,3 +293,55 @@ def _(c):
     c.ensures("near(self.magnitude.value, magnitude * f) and near(self.magnitude.error, abse * f)", "value-and-uncertainty-folded-with-the-same-factor")
     c.ensures("self.baseunits.expression == kept", "cancelled-units-dropped")
     c.no_raise()
+
+
+# ---- integer-valued arrays: the magnitude is held as floats, so an uncertainty that is not a whole number survives ----------------------
+def _intarrq(bd, p, unit, err):
+    xs = [bd.int(f"{p}{i}") for i in range(3)]
+    arr = bd.call(bd.const(_np.array), bd.list(list(xs)))
+    return xs, arr, bd.new(Q, arr, U.render(T(unit)), abse=err)
+
+
+@contract(f"{Q}.__init__", ["C08"], name="Quantity.__init__[integer-array-with-uncertainty]")
+def _(c):
+    c.bound = "arrays of three integers (symbolic) with a real uncertainty"
+
+    def pre(bd):
+        xs = [bd.int(f"x{i}") for i in range(3)]
+        arr = bd.call(bd.const(_np.array), bd.list(list(xs)))
+        return dict(args=[bd.obj(Q), arr, "m"], kwargs=dict(abse=bd.real("e")), env=dict(xs=xs))
+    c.scenario("int-array", pre)
+    c.requires("abse >= 0")
+    c.ensures("elems(self.magnitude.value) == xs and elems(self.magnitude.error) == [abse for x in xs]", "values-and-the-uncertainty-as-given")
+    c.no_raise()
+
+
+for opname, sym in (("__add__", "+"), ("__sub__", "-")):
+    @contract(f"{Q}.{opname}", ["C08"], name=f"Quantity.{opname}[integer-arrays-with-uncertainty]")
+    def _(c, sym=sym):
+        c.bound = "arrays of three integers (symbolic) with real uncertainties"
+
+        def pre(bd):
+            ea, eb = bd.real("ea"), bd.real("eb")
+            xs, arra, a = _intarrq(bd, "x", "m", ea)
+            ys, arrb, b = _intarrq(bd, "y", "c:m", eb)
+            return dict(args=[a, b], env=dict(xs=xs, ys=ys, ea=ea, eb=eb))
+        c.scenario("m-cm", pre)
+        c.requires("ea >= 0 and eb >= 0")
+        c.ensures(f"all([near(r, x {sym} y / 100) for r, x, y in zip(elems(result.magnitude.value), xs, ys)])", "element-wise")
+        c.ensures("all([near(r, ea + eb / 100) and r >= 0 for r in elems(result.magnitude.error)])", "uncertainties-add")
+        c.no_raise()
+
+
+@contract(f"{Q}.__mul__", ["C08"], name="Quantity.__mul__[integer-array-by-number]")
+def _(c):
+    c.bound = "arrays of three integers (symbolic) with a real uncertainty, multiplied by a real number"
+
+    def pre(bd):
+        e = bd.real("e")
+        xs, arr, a = _intarrq(bd, "x", "m", e)
+        return dict(args=[a, bd.real("k")], env=dict(xs=xs, e=e))
+    c.scenario("int-array * k", pre)
+    c.requires("e >= 0")
+    c.ensures("all([near(r, x * other) for r, x in zip(elems(result.magnitude.value), xs)]) and all([near(r, e * absv(other)) for r in elems(result.magnitude.error)])", "scaled-with-the-uncertainty")
+    c.no_raise()
